@@ -94,6 +94,15 @@ def gen(rng, k):
         script.append(dict(t=1000, s=s1, op='ca_start', ca=0, delay=0))
         script.append(dict(t=20000, s=s1 + 1, op='ca_start', ca=0, delay=0))
         tx_errors.append(dict(s=s1 + 1, nth=2))
+    two = [m for m in meta if m['phase'] == 'normal' and len(m['reqs']) == 2 and 'moved_from' not in m]
+    if two and rng.random() < 0.35:
+        # a request callback taken off again before the requests arrive (handed over as a fresh bound-method object, as an
+        # application's ca.unsubscribe_request(self.on_request) is): it is no request callback of that CA any more
+        m = rng.choice(two)
+        gone = rng.choice(m['reqs'])
+        script.append(dict(t=900_000, s=m['stack'], op='ca_unsubscribe_request', ca=m['ca'], cid=gone))
+        m['reqs'] = [c for c in m['reqs'] if c != gone]
+        m['unsubscribed'] = gone
     owned = [m['addr'] for m in meta if m['addr'] is not None]
     for _ in range(rng.randint(1, 5)):
         t = 1_000_000 + rng.randint(2000, 200000)
